@@ -87,16 +87,9 @@ def place (k : Nat) : List T → Nat → Nat → String → List Tok → String 
     let w := (tokText t).utf8ByteSize
     place k r (i + 1) (s + w) (text ++ g ++ tokText t) (⟨t, ⟨s, s + spanWidth t w⟩⟩ :: acc)
 
-open GluonModel.LayoutAlgo in
-def kindOf : T → Kind
-  | .kLet => .let_ | .kIn => .in_ | .kIf => .if_ | .kThen => .then_ | .kElse => .else_
-  | .lam => .lambda | .arrow => .rarrow | .eq => .equals | .lp => .lparen | .rp => .rparen
-  | .comma => .comma | .ob => .openBlock | .cb => .closeBlock
-  | _ => .other
-
 /-- C09's layout model on the placed tokens; the result in this model's token type -/
 def runLayout (ts : List ExprGrammar.Tok) (endPos : Nat) : Option (List ExprGrammar.Tok) :=
-  let inp : List LayoutAlgo.Tok := ts.map fun t => ⟨kindOf t.t, ⟨1, t.sp.s, t.sp.s⟩, t.sp.e⟩
+  let inp : List LayoutAlgo.Tok := toLayout ts
   let eof : LayoutAlgo.Tok := ⟨.eof, ⟨1, endPos, endPos⟩, endPos⟩
   match LayoutAlgo.layout inp eof (4 * ts.length + 16) with
   | (out, .ok) =>
